@@ -16,7 +16,10 @@ from concurrent.futures import ThreadPoolExecutor
 import vlib
 
 MANIFEST = dict(
-    level=("proof", "Twenty-three Coq theorems.  Thirteen over an executable model of munged's start-up/shutdown program (file "
+    level=("proof", "Twenty-seven Coq theorems (incl. never_two_bound: the first clause said directly; the search "
+           "semantics over an observed program text is the proved transition system on the expected one; the lock and "
+           "socket descriptors survive daemonize_fini for every initial descriptor table, and the pre-repair program "
+           "refuted with 0-2 closed).  Thirteen over an executable model of munged's start-up/shutdown program (file "
            "system of the lock/socket/pid/seed names, fcntl lock owners, listeners; any number of processes, any "
            "interleaving, SIGKILL enabled in every state): single lock holder, only the holder mutates the names, a "
            "loser exits at F_SETLK leaving everything untouched, the serving daemon is undisturbed, the holder "
@@ -270,7 +273,7 @@ def wait_for(pred, timeout=5.0, step=0.01):
     return pred()
 
 
-def wait_serving(D, timeout=5.0):
+def wait_serving(D, timeout=10.0):
     return wait_for(lambda: os.path.exists(D.pid) and canary(D.sock) is None, timeout)
 
 
@@ -287,7 +290,13 @@ def abstract_trace(text, D, main_pid=None):
     rev = {p: n for n, p in D.names().items()}
     toks, det = [], {}
     lockfd = sockfd = pidfd = seedfd = None
+    cur_call = None
+    ords, pos = {}, []          # pos[i] = (syscall, its ordinal among the main pid's calls of that name) behind toks[i]
+    det["pos"], det["pos_reliable"] = pos, True
     for line in text.splitlines():
+        while len(pos) < len(toks):
+            pos.append(cur_call)
+        cur_call = None
         m = re.match(r"^(\d+)\s+(.*)$", line)
         if not m:
             continue
@@ -296,6 +305,12 @@ def abstract_trace(text, D, main_pid=None):
             main_pid = pid
         if pid != main_pid:
             continue
+        if "<unfinished" in rest or "resumed>" in rest:
+            det["pos_reliable"] = False
+        mc = re.match(r"(\w+)\(", rest)
+        if mc:
+            ords[mc.group(1)] = ords.get(mc.group(1), 0) + 1
+            cur_call = (mc.group(1), ords[mc.group(1)])
         if rest.startswith("--- SIGTERM") or rest.startswith("--- SIGINT"):
             toks.append("serve")
             continue
@@ -367,7 +382,10 @@ def abstract_trace(text, D, main_pid=None):
                     det["setlk"] = {"nonblock": "F_SETLK," in args or "F_OFD_SETLK," in args, "excl": "F_WRLCK" in args,
                                     "whole": "l_whence=SEEK_SET, l_start=0, l_len=0" in args}
                 elif "F_GETLK" in args:
-                    pass
+                    # a query of the lock BEFORE the attempt to take it is a step of the protocol (check, then act);
+                    # the unchanged code only asks after a refused F_SETLK, for the error message
+                    if "setlk" not in toks and "setlk!" not in toks:
+                        toks.append("getlk")
                 else:
                     toks.append("other:fcntl:lock")
         elif sc == "write":
@@ -394,6 +412,8 @@ def abstract_trace(text, D, main_pid=None):
             if "lock" in paths and ("open_lock" in toks):
                 toks.append("stat:lock")
             continue
+    while len(pos) < len(toks):
+        pos.append(cur_call)
     return toks, det, main_pid
 
 
@@ -1247,6 +1267,322 @@ def scenario_seedstate(ctx, exe, spec):
 
 
 # ---------------------------------------------------------------------------------------------------
+# (f) forced interleavings: a model schedule executed on live daemons
+# ---------------------------------------------------------------------------------------------------
+def proc_state(pid):
+    try:
+        return open("/proc/%d/stat" % pid).read().rsplit(")", 1)[1].split()[0]
+    except (OSError, IndexError):
+        return None
+
+
+def pid_listens_on(pid, sockpath):
+    """does process pid hold a listening socket bound to exactly sockpath"""
+    inos = {ino for path, ino in listening_under(sockpath) if path == sockpath}
+    if not inos:
+        return False
+    try:
+        for fd in os.listdir("/proc/%d/fd" % pid):
+            try:
+                l = os.readlink("/proc/%d/fd/%s" % (pid, fd))
+            except OSError:
+                continue
+            m = re.match(r"socket:\[(\d+)\]", l)
+            if m and int(m.group(1)) in inos:
+                return True
+    except OSError:
+        pass
+    return False
+
+
+def normalise_schedule(sched):
+    """move every SIGTERM label to just before the next step of its process (nobody can observe the difference)"""
+    out, pending = [], set()
+    for l in sched:
+        if l[0] == "t":
+            pending.add(l[1:])
+        else:
+            if l[0] == "s" and l[1:] in pending:
+                out.append("t" + l[1:])
+                pending.discard(l[1:])
+            out.append(l)
+    return out + ["t" + q for q in sorted(pending)]
+
+
+def force_schedule(ctx, exe, tag, prog, sched, pos):
+    """Runs the schedule (labels sN / tN over the program text prog) on live daemons in one directory.  A process that
+    the schedule preempts in the middle of its program is parked there: it runs under strace with
+    inject=<syscall>:signal=STOP:when=<n> on the system call behind the last step it may take (pos, from the trace of
+    a plain life), stays stopped while the others run, and gets SIGCONT when the schedule returns to it.
+    Returns dict(realised, why, pids, bound, live, canary)."""
+    D = Dir(ctx, tag)
+    sched = normalise_schedule(sched)
+    res = {"realised": False, "why": None, "schedule": " ".join(sched)}
+    try:
+        serve_at = prog.index("serve")
+        # segments and park points
+        segs = []
+        for l in sched:
+            if segs and segs[-1][0] == l[1:] and l[0] != "t":
+                segs[-1][1].append(l)
+            else:
+                segs.append([l[1:], [l]])
+        pcs, parks = {}, {}
+        last_seg = {q: max(i for i, sg in enumerate(segs) if sg[0] == q) for q, _ in segs}
+        for i, (q, labs) in enumerate(segs):
+            pcs[q] = pcs.get(q, 0) + len(labs)
+            if i != last_seg[q] and pcs[q] < len(prog) and pcs[q] != serve_at:
+                parks.setdefault(q, []).append(pcs[q])
+        inj = {}
+        for q, pl in parks.items():
+            inj[q] = []
+            for pc in pl:
+                call = pos[pc - 1] if 0 < pc <= len(pos) else None
+                if call is None or call[0] == "write" or call[0] in [c for c, _ in inj[q]]:
+                    res["why"] = "cannot park process %s before step %d (%s)" % (q, pc, prog[pc] if pc < len(prog) else "end")
+                    return res
+                inj[q].append(call)
+        procs = {}            # q -> dict(popen, pid)
+        pcs = {}
+
+        def settled(q, want_park, after_term):
+            pid = procs[q]["pid"]
+            def f():
+                st_ = proc_state(pid)
+                if st_ is None or st_ == "Z":
+                    return "exited"
+                if st_ in "tT":
+                    return "parked"
+                if not want_park and not after_term and pid_listens_on(pid, D.sock) and st_ == "S":
+                    return "listening"
+                return None
+            return wait_for(f, 10.0)
+
+        for i, (q, labs) in enumerate(segs):
+            term = any(l[0] == "t" for l in labs)
+            pcs[q] = pcs.get(q, 0) + len(labs)
+            want_park = pcs[q] in parks.get(q, []) and i != last_seg[q]
+            if q not in procs:
+                argv = D.argv(exe)
+                if inj.get(q):
+                    if os.path.exists(D.seed):
+                        res["why"] = "process %s must be parked but starts on an existing seed file (positions unknown)" % q
+                        return res
+                    pre = ["strace", "-f", "-o", "/dev/null", "-e", "trace=" + ",".join(sorted({c for c, _ in inj[q]}))]
+                    for c, n in inj[q]:
+                        pre += ["-e", "inject=%s:signal=STOP:when=%d" % (c, n)]
+                    argv = pre + argv
+                before = set(D.procs())
+                po = popen(D, argv)
+                pid = wait_for(lambda: (sorted(set(D.procs()) - before) or [None])[0] if po.poll() is None
+                               else -1, 5.0)
+                if pid in (None, -1):
+                    # the start command is already gone (it failed at once): nothing to control
+                    procs[q] = {"popen": po, "pid": po.pid if not inj.get(q) else -1}
+                    if po.poll() is None:
+                        res["why"] = "process %s did not appear" % q
+                        return res
+                    continue
+                procs[q] = {"popen": po, "pid": pid}
+            else:
+                pid = procs[q]["pid"]
+                if term:
+                    # must be serving before it is told to stop
+                    wait_for(lambda: pid_listens_on(pid, D.sock) or proc_state(pid) in (None, "Z"), 10.0)
+                if proc_state(pid) in ("t", "T"):
+                    os.kill(pid, signal.SIGCONT)
+                if term:
+                    try:
+                        os.kill(pid, signal.SIGTERM)
+                    except OSError:
+                        pass
+            got = settled(q, want_park, term)
+            if got is None or (want_park and got == "listening"):
+                res["why"] = "process %s did not reach the end of its segment %d (%s)" % (q, i, got)
+                return res
+        time.sleep(0.3)
+        res["realised"] = True
+        live = [pid for pid in D.procs() if proc_state(pid) not in (None, "Z", "t", "T")]
+        res["live"] = live
+        res["bound"] = [pid for pid in live if pid_listens_on(pid, D.sock)]
+        res["pids"] = {q: v["pid"] for q, v in procs.items()}
+        res["canary"] = canary(D.sock) if live else None
+        res["lock_holder"] = lock_holder(D.lock)
+        return res
+    finally:
+        for pid in D.procs():
+            try:
+                os.kill(pid, signal.SIGCONT)
+            except OSError:
+                pass
+        D.remove()
+
+
+def describe_schedule(prog, sched):
+    """labels -> 'P0: read_seed..write_pid | SIGTERM P0 | P0: unlink:sock..close_lock | P1: ...' """
+    out, pcs, cur, first, last = [], {}, None, None, None
+    def flush():
+        if cur is not None:
+            out.append("P%s: %s" % (cur, first if first == last else "%s..%s" % (first, last)))
+    for l in sched:
+        q = l[1:]
+        if l[0] == "t":
+            flush()
+            cur = None
+            out.append("SIGTERM P%s" % q)
+            pcs[q] = pcs.get(q, 0) + 1
+            continue
+        tok = prog[pcs.get(q, 0)] if pcs.get(q, 0) < len(prog) else "?"
+        pcs[q] = pcs.get(q, 0) + 1
+        if q != cur:
+            flush()
+            cur, first = q, tok
+        last = tok
+    flush()
+    return " | ".join(out)
+
+
+def gap_schedules(prog):
+    """the family: one process parked in every gap between two consecutive lock-related system calls of start-up
+    (while another start runs to service, then a third start) and of shutdown (while another start runs, then the
+    stopper finishes, then a third start).  Returns [(name, labels)] — labels that turn out not to be enabled are
+    dropped by the model (oracle command Y) before the live run."""
+    out = []
+    if "serve" not in prog:
+        return out
+    ns = prog.index("serve")
+    rest = len(prog) - ns - 1
+    for t in ("read_seed", "open_lock", "fstat_lock", "getlk", "setlk"):
+        if t in prog[:ns]:
+            g = prog.index(t) + 1
+            out.append(("start parked after %s" % t,
+                        ["s1"] * g + ["s0"] * ns + ["s1"] * (ns - g) + ["s2"] * ns))
+    for t in ("unlink:sock", "close_sock", "unlink:lock", "close_lock"):
+        if t in prog[ns + 1:]:
+            g = prog.index(t, ns + 1) + 1
+            out.append(("stop parked after %s" % t,
+                        ["s0"] * ns + ["t0"] + ["s0"] * (g - ns - 1) + ["s1"] * ns + ["s0"] * (len(prog) - g) + ["s2"] * ns))
+    return out
+
+
+def forced_interleavings(ctx, exe, oracle, prog, pos, concrete, corr, dist):
+    """search on the observed program + the gap family, each forced on live daemons; the clause 'at most one munged is
+    bound to the socket path' evaluated on /proc"""
+    P = " ".join(prog)
+    jobs = []              # (name, schedule labels, model bound list or None)
+    limit, maxpre = (3000000, 99) if ctx.thorough else (400000, 3)
+    rc, out, err = vlib.run_lines([oracle], ["B 3 %d %d 1 ; %s" % (limit, maxpre, P)], timeout=300)
+    found = None
+    if rc == 0 and len(out) == 1 and out[0].startswith("B "):
+        ctx.cov["interleaving_search"] = out[0][:200]
+        if out[0].startswith("B found"):
+            found = out[0].split(" ; ", 1)[1].split()
+            jobs.append(("model search on the observed program (%s)" % out[0].split(" ; ")[0][2:], found, None))
+    else:
+        ctx.notes.append("interleaving search did not run: %s" % (err[-200:] or out))
+    fam = gap_schedules(prog)
+    if fam:
+        rc, out, err = vlib.run_lines([oracle], ["Y 3 ; %s ; %s" % (P, " ".join(sc)) for _, sc in fam], timeout=120)
+        if rc == 0 and len(out) == len(fam):
+            for (name, _), line in zip(fam, out):
+                if " ; " not in line:
+                    continue
+                head, taken = line.rsplit(" ; ", 1)
+                mb = head.rsplit("bound=", 1)[1].strip()
+                jobs.append((name, taken.split(), [x for x in mb.split(",") if x]))
+    if not jobs:
+        return
+    with ThreadPoolExecutor(max_workers=10) as ex:
+        res = list(ex.map(lambda j: (j, force_schedule(ctx, exe, "fi%d" % j[0], prog, j[1][1], pos)), list(enumerate(jobs))))
+    unreal = 0
+    for (idx, (name, sched, mbound)), r in res:
+        ctx.count(("forced", name, tuple(sched)))
+        dist["forced_interleaving"] = dist.get("forced_interleaving", 0) + 1
+        if not r["realised"]:
+            unreal += 1
+            ctx.notes.append("forced interleaving '%s' not realised: %s" % (name, r["why"]))
+            continue
+        rep = {"scenario": "forced", "name": name, "schedule": r["schedule"], "program": prog, "result": r,
+               "how": "labels sN = next system-call step of start/stop program by daemon N, tN = SIGTERM to daemon N; a daemon "
+                      "preempted mid-program is parked with strace -e inject=<syscall>:signal=STOP:when=<n> and resumed "
+                      "with SIGCONT; afterwards count the live munged processes holding a listening socket bound to the "
+                      "socket path (/proc/net/unix, /proc/<pid>/fd)"}
+        if len(r["bound"]) >= 2:
+            concrete.append(("%d live munged processes (pids %s) are bound to the one socket path at once after the interleaving "
+                             "[%s] = %s (%s); lock file held by %s"
+                             % (len(r["bound"]), r["bound"], r["schedule"], describe_schedule(prog, r["schedule"].split()), name,
+                                r["lock_holder"]), rep))
+        elif r["live"] and r["canary"] and len(r["bound"]) == 1 and mbound is not None:
+            concrete.append(("after the interleaving [%s] (%s) the surviving munged does not serve on the socket path: %s"
+                             % (r["schedule"], name, r["canary"]), rep))
+        elif mbound is not None and len(mbound) != len(r["bound"]):
+            corr.append(("forced interleaving [%s] (%s): the model ends with %d bound processes, the live run with %d"
+                         % (r["schedule"], name, len(mbound), len(r["bound"])),
+                         dict(rep, obligation="correspondence StartSearchModel.xrun ~ forced live schedule")))
+    if found is not None and not any(j[0][1][0].startswith("model search") and len(j[1].get("bound", [])) >= 2 for j in res):
+        corr.append(("some interleaving of three copies of the program the daemon shows under strace reaches two bound "
+                     "processes in the model (not the F-C15-unlink transition): [%s]; the forced live run did not reproduce it"
+                     % " ".join(found), {"obligation": "StartSearchModel search on the observed program", "scenario": "forced",
+                                         "schedule": found, "program": prog}))
+    ctx.log("forced interleavings done: %d schedules (%d not realised), search: %s"
+            % (len(jobs), unreal, ctx.cov.get("interleaving_search", "-")[:60]))
+
+
+# ---------------------------------------------------------------------------------------------------
+# (g) started with descriptors 0-2 closed (regression for D6-closed-stdio-drops-lock)
+# ---------------------------------------------------------------------------------------------------
+def scenario_closed_fds(ctx, exe, spec):
+    """spec: tag, closed (subset of 0,1,2 closed at exec), foreground.  Start A that way; then a second start without
+    --force on the same paths must exit with an error and leave A holding the lock, listening on the same inode, named
+    by the pid file and serving; A's clean stop removes socket, lock and pid file."""
+    D = Dir(ctx, spec["tag"])
+    closed, fg = spec["closed"], spec["foreground"]
+    what = "munged started %s with descriptors %s closed" % ("with -F" if fg else "in background mode",
+                                                              "{" + ",".join(map(str, closed)) + "}")
+    fails = []
+    try:
+        redir = " ".join("%d%s&-" % (n, "<" if n == 0 else ">") for n in closed)
+        a = popen(D, ["sh", "-c", 'exec "$@" ' + redir, "sh"] + D.argv(exe, foreground=fg))
+        if not fg:
+            try:
+                rc = a.wait(timeout=RESTART_BOUND)
+            except subprocess.TimeoutExpired:
+                return ["%s: the start command did not return within %d s" % (what, RESTART_BOUND)], {}
+            if rc != 0:
+                return ["%s: the start failed (exit %s): %s" % (what, rc, tail(D.log, 200))], {}
+        if not wait_serving(D, RESTART_BOUND):
+            return ["%s: it does not serve: %s" % (what, tail(D.log, 200))], {}
+        bad, snap0, ps0 = check_serving_state(D, what)
+        fails += bad
+        b = popen(D, D.argv(exe, foreground=False))
+        try:
+            rc = b.wait(timeout=RESTART_BOUND)
+        except subprocess.TimeoutExpired:
+            b.kill()
+            rc = "still running"
+        if rc == 0 or rc == "still running":
+            fails.append("%s: a second start without --force on the same paths did not exit with an error (%s); "
+                         "live munged processes now: %s" % (what, rc, D.procs()))
+        bad, snap1, ps1 = check_serving_state(D, what + ", after a second start")
+        fails += bad
+        for n in ("sock", "lock", "pid", "pid_content", "lock_holder"):
+            if snap1[n] != snap0[n]:
+                fails.append("%s: the second start changed the running daemon's %s: %s -> %s" % (what, n, snap0[n], snap1[n]))
+        if not fails:
+            for q in ps0:
+                os.kill(q, signal.SIGTERM)
+            if not wait_for(lambda: not D.procs(), 20.0):
+                fails.append("%s: it did not exit within 20 s of SIGTERM" % what)
+            else:
+                for n in ("sock", "lock", "pid"):
+                    if os.path.lexists(D.names()[n]):
+                        fails.append("%s: after its clean stop the %s file still exists" % (what, n))
+        return fails, {"lock_holder": snap0.get("lock_holder"), "daemon": ps0}
+    finally:
+        D.remove()
+
+
+# ---------------------------------------------------------------------------------------------------
 # finding F-C15-unlink
 # ---------------------------------------------------------------------------------------------------
 def scenario_overlap(ctx, exe, tag):
@@ -1373,6 +1709,9 @@ class RefSim:
         fail = False
         if tok == "read_seed":
             pass                              # returns on a missing, an empty and a complete seed file alike
+        elif tok == "getlk":
+            i = pr["lockfd"]
+            fail = i is None or self.lockown.get(i, q) != q
         elif tok == "open_lock":
             pr["lockfd"] = self.names["lock"] if self.names["lock"] is not None else self.alloc("lock")
         elif tok == "fstat_lock":
@@ -1503,7 +1842,11 @@ def run(ctx):
                        "fcntl/unlink/bind/openat), late starts, clean stop + restart, SIGKILL injected at each "
                        "file-system/socket syscall of start-up/shutdown (write() into the pid and the seed file included: empty "
                        "files left) + restart within a bound + that daemon's clean stop; >= 3 start/serve/stop cycles on one "
-                       "set of paths (seed renewed every cycle); starts on pre-made empty/short/complete seed files; socket paths of "
+                       "set of paths (seed renewed every cycle); starts on pre-made empty/short/complete seed files; forced "
+                       "interleavings: the schedule (if any) a search of the extracted model finds on the program text seen "
+                       "under strace, and one process parked (strace inject signal=STOP / SIGCONT) in every gap between the "
+                       "lock-related calls of start-up and of shutdown while another start runs, then a third start; started "
+                       "with every subset of descriptors 0-2 closed (background and -F), then a second start; socket paths of "
                        "sizeof(sun_path)-2..+1 bytes (thorough: +-4, random, past lock.c's buffer): names at every site "
                        "(strace) == StartPathModel.cprog, /proc/net/unix and directory after start, after a start on a "
                        "proper prefix, after clean stops; model "
@@ -1558,17 +1901,20 @@ def _run_live(ctx, exe, oracle, concrete, corr):
     if prog is None:
         corr.append(("the start oracle could not be built or run", {"obligation": "oracle start"}))
     live_prog = None
+    live_pos = None
     # ---- (a) trace equivalence
-    if replay is None or replay.get("scenario") in (None, "trace"):
+    if replay is None or replay.get("scenario") in (None, "trace", "forced"):
         toks, det, text = strace_life(ctx, exe, "life")
         if toks is None:
             concrete.append(("a plain start + SIGTERM of the rebuilt daemon failed: %s" % det.get("why"),
                              {"scenario": "trace", "detail": det}))
         else:
             ctx.count(("trace", tuple(toks)))
-            known = set(prog or []) | {"serve", "exit"}
+            known = set(prog or []) | {"serve", "exit", "getlk"}
             if all(t in known or t.startswith("unlink:") for t in toks) and "serve" in toks and toks[-1] == "exit":
                 live_prog = toks
+                if det.get("pos_reliable") and len(det.get("pos", [])) == len(toks):
+                    live_pos = det["pos"]
             ctx.sample({"strace_abstract": " ".join(toks)})
             dist["trace"] = dist.get("trace", 0) + 1
             if prog is not None and toks != prog:
@@ -1623,41 +1969,65 @@ def _run_live(ctx, exe, oracle, concrete, corr):
             corr.append(("extracted model and reference simulation of the daemon's trace disagree on %s: %s vs %s"
                          % (l, a, b), {"obligation": "correspondence StartModel ~ reference simulation",
                                        "case_line": l, "model": a, "reference": b}))
-    # ---- (b) races
-    specs = []
-    if replay and replay.get("scenario") == "race":
-        specs = [dict(replay["spec"], tag="rp%d" % i) for i in range(12)]
-    elif replay is None:
-        nrace = 150 if ctx.thorough else 14
-        for i in range(nrace):
-            k = 2 + (i % 7)
-            delays = None
-            if i % 2 == 1:
-                delays = []
-                for _ in range(k):
-                    if rng.random() < 0.6:
-                        d = {}
-                        for sc in ("fcntl", "unlink", "bind", "openat"):
-                            if rng.random() < 0.5:
-                                d[sc] = rng.choice([200, 1000, 5000, 20000]) if sc != "openat" else rng.choice([100, 500])
-                        delays.append(d or None)
-                    else:
-                        delays.append(None)
-            specs.append({"tag": "r%d" % i, "k": k, "delays": delays, "late": 2 if i % 3 == 0 else 1,
-                          "stop": i % 2 == 0})
-    if specs:
-        with ThreadPoolExecutor(max_workers=6) as ex:
-            res = list(ex.map(lambda s: (s, scenario_race(ctx, exe, s)), specs))
-        for s, (fails, fct) in res:
-            ctx.count(("race", s["k"], json.dumps(s.get("delays"), sort_keys=True), s.get("late"), s.get("stop")))
-            dist["race_k%d" % s["k"]] = dist.get("race_k%d" % s["k"], 0) + 1
-            if fails:
-                sp = {k: v for k, v in s.items() if k != "tag"}
-                concrete.append((fails[0], {"scenario": "race", "spec": sp, "all_failures": fails, "facts": fct,
-                                            "how": "start k munged on one socket together (barrier), then late "
-                                                   "starts, compare socket inode / pid file / lock holder, canary"}))
-        ctx.sample({"race": specs[0], "result": res[0][1][1]})
-        ctx.log("races done: %d scenarios, %d with failures" % (len(specs), sum(1 for _, (f, _) in res if f)))
+    # ---- phases (f) and (b) run beside (c), (e), (d): they share nothing but the verdict lists
+    def phase_fb():
+        # ---- (f) forced interleavings of the observed program
+        if oracle and live_prog and live_pos and (replay is None or replay.get("scenario") == "forced"):
+            if replay is None:
+                forced_interleavings(ctx, exe, oracle, live_prog, live_pos, concrete, corr, dist)
+            else:
+                r = force_schedule(ctx, exe, "fr", live_prog, replay["schedule"].split(), live_pos)
+                ctx.count(("forced-replay", replay["schedule"]))
+                if r["realised"] and len(r["bound"]) >= 2:
+                    concrete.append(("%d live munged processes (pids %s) are bound to the one socket path at once after the "
+                                     "interleaving [%s]" % (len(r["bound"]), r["bound"], r["schedule"]),
+                                     {"scenario": "forced", "schedule": r["schedule"], "program": live_prog, "result": r}))
+                else:
+                    ctx.notes.append("replay of the forced interleaving: %s" % r)
+        # ---- (b) races
+        specs = []
+        if replay and replay.get("scenario") == "race":
+            specs = [dict(replay["spec"], tag="rp%d" % i) for i in range(12)]
+        elif replay is None:
+            nrace = 150 if ctx.thorough else 14
+            for i in range(nrace):
+                k = 2 + (i % 7)
+                delays = None
+                if i % 2 == 1:
+                    delays = []
+                    for _ in range(k):
+                        if rng.random() < 0.6:
+                            d = {}
+                            for sc in ("fcntl", "unlink", "bind", "openat"):
+                                if rng.random() < 0.5:
+                                    d[sc] = rng.choice([200, 1000, 5000, 20000]) if sc != "openat" else rng.choice([100, 500])
+                            delays.append(d or None)
+                        else:
+                            delays.append(None)
+                specs.append({"tag": "r%d" % i, "k": k, "delays": delays, "late": 2 if i % 3 == 0 else 1,
+                              "stop": i % 2 == 0})
+        if specs:
+            with ThreadPoolExecutor(max_workers=6) as ex:
+                res = list(ex.map(lambda s: (s, scenario_race(ctx, exe, s)), specs))
+            for s, (fails, fct) in res:
+                ctx.count(("race", s["k"], json.dumps(s.get("delays"), sort_keys=True), s.get("late"), s.get("stop")))
+                dist["race_k%d" % s["k"]] = dist.get("race_k%d" % s["k"], 0) + 1
+                if fails:
+                    sp = {k: v for k, v in s.items() if k != "tag"}
+                    concrete.append((fails[0], {"scenario": "race", "spec": sp, "all_failures": fails, "facts": fct,
+                                                "how": "start k munged on one socket together (barrier), then late "
+                                                       "starts, compare socket inode / pid file / lock holder, canary"}))
+            ctx.sample({"race": specs[0], "result": res[0][1][1]})
+            ctx.log("races done: %d scenarios, %d with failures" % (len(specs), sum(1 for _, (f, _) in res if f)))
+    import threading
+    fb_err = []
+    def fb_guard():
+        try:
+            phase_fb()
+        except BaseException as e:          # re-raised below: never silently pass
+            fb_err.append(e)
+    fb = threading.Thread(target=fb_guard)
+    fb.start()
     # ---- (c) crash points
     cspecs = []
     if replay and replay.get("scenario") == "crash":
@@ -1693,6 +2063,29 @@ def _run_live(ctx, exe, oracle, concrete, corr):
             if replay is None and not any(("%s=%s" % (what, need)) in v for v in lefts.values()):
                 ctx.notes.append("no kill point left an empty %s file in this run" % what)
         ctx.log("crash points done: %d kill points, %d with failures" % (len(cspecs), sum(1 for _, (f, _) in res if f)))
+    # ---- (g) descriptors 0-2 closed at exec
+    gspecs = []
+    if replay and replay.get("scenario") == "closedfds":
+        gspecs = [dict(replay["spec"], tag="cf0")]
+    elif replay is None:
+        i = 0
+        for fg in (False, True):
+            for mask in range(8):
+                gspecs.append({"tag": "cf%d" % i, "closed": [n for n in (0, 1, 2) if mask >> n & 1], "foreground": fg})
+                i += 1
+    if gspecs:
+        with ThreadPoolExecutor(max_workers=8) as ex:
+            res = list(ex.map(lambda sp: (sp, scenario_closed_fds(ctx, exe, sp)), gspecs))
+        for sp, (fails, fct) in res:
+            ctx.count(("closedfds", tuple(sp["closed"]), sp["foreground"]))
+            dist["closedfds"] = dist.get("closedfds", 0) + 1
+            if fails:
+                concrete.append((fails[0], {"scenario": "closedfds", "spec": {k: v for k, v in sp.items() if k != "tag"},
+                                            "all_failures": fails, "facts": fct,
+                                            "how": "sh -c 'exec \"$@\" 0<&- 1>&- 2>&-' sh munged [-F] -S s ... (the listed "
+                                                   "descriptors closed); then munged -S s ... again (no --force): must exit "
+                                                   "non-0; F_GETLK on s.lock must name the first daemon"}))
+        ctx.log("closed descriptors done: %d scenarios, %d with failures" % (len(gspecs), sum(1 for _, (f, _) in res if f)))
     # ---- (e) seed file: cycles and pre-made seed states
     especs = []
     if replay and replay.get("scenario") in ("cycles", "seedstate"):
@@ -1734,7 +2127,9 @@ def _run_live(ctx, exe, oracle, concrete, corr):
             lens |= set(range(v - 2, v + 2)) if not ctx.thorough else set(range(v - 4, v + 5))
         if ctx.thorough:
             lo = len(ctx.tmp) + 12
-            lens |= {rng.randrange(lo, sizes["sun_path"] - 3) for _ in range(8)}
+            import random as _random
+            rng2 = _random.Random(ctx.seed * 7919 + 15)       # (ctx.rng is in use by the races running beside this phase)
+            lens |= {rng2.randrange(lo, sizes["sun_path"] - 3) for _ in range(8)}
             lens |= {sizes["sun_path"] + 20, 300, sizes["lock_name_max"] - 5, sizes["lock_name_max"] - 4,
                      sizes["lock_name_max"] + 8}
         for n in sorted(lens):
@@ -1772,6 +2167,9 @@ def _run_live(ctx, exe, oracle, concrete, corr):
                 concrete.append((fl[0], {"scenario": "holder-killed-mid-start", "info": info,
                                          "how": "start A; start B under strace -e inject=fcntl:delay_enter=1200000:when=%d; "
                                                 "kill -9 A during the delay; wait; start C" % which}))
+    fb.join()
+    if fb_err:
+        raise fb_err[0]
     # ---- finding F-C15-unlink (thorough, or when replaying it)
     if (ctx.thorough and replay is None and not os.environ.get("VERIF_C15_SKIP_FINDING")) or \
             (replay and replay.get("scenario") == "overlap"):
